@@ -4,6 +4,7 @@ package main
 
 import (
 	"fmt"
+	"go/constant"
 	"go/token"
 	"go/types"
 	"sort"
@@ -867,4 +868,150 @@ func lengthPositiveAt(fn *ssa.Function, lenStr string, at ssa.Instruction) bool 
 		}
 	}
 	return false
+}
+
+// ruleCutsetNotPrefix implements C20.R2 / C18.R6: strings.Trim/TrimLeft/TrimRight take a *set of characters*, not a prefix. On a file
+// pattern or a file name, a set with two or more different characters, one of which can occur in a name ('.', a letter, ...),
+// removes leading name characters as well: TrimLeft(".cfg/x", "./") is "cfg/x". Removing a prefix is TrimPrefix/TrimSuffix.
+func ruleCutsetNotPrefix(c *Ctx, rule string, pkgs []string) {
+	r := c.R
+	n := 0
+	var bad []string
+	var first string
+	for _, pkg := range pkgs {
+		for _, fn := range c.SrcFuncs(pkg) {
+			instrsOf(fn, func(in ssa.Instruction) {
+				call, ok := in.(*ssa.Call)
+				if !ok {
+					return
+				}
+				sc := call.Call.StaticCallee()
+				if sc == nil || sc.Pkg == nil || (sc.Pkg.Pkg.Path() != "strings" && sc.Pkg.Pkg.Path() != "bytes") || len(call.Call.Args) != 2 {
+					return
+				}
+				switch sc.Name() {
+				case "Trim", "TrimLeft", "TrimRight":
+				default:
+					return
+				}
+				n++
+				k, ok := call.Call.Args[1].(*ssa.Const)
+				if !ok || k.Value == nil || k.Value.Kind() != constant.String {
+					return
+				}
+				set := constant.StringVal(k.Value)
+				distinct := map[rune]bool{}
+				nameChar := false
+				for _, ch := range set {
+					distinct[ch] = true
+					if ch != ' ' && ch != '\t' && ch != '\n' && ch != '\r' && ch != '/' && ch != '\\' {
+						nameChar = true
+					}
+				}
+				if len(distinct) >= 2 && nameChar {
+					bad = append(bad, fmt.Sprintf("%s: %s.%s(%s, %q) [%s]", fnName(fn), sc.Pkg.Pkg.Name(), sc.Name(), exprStr(call.Call.Args[0]), set, c.pos(call.Pos())))
+					if first == "" {
+						first = c.pos(call.Pos())
+					}
+				}
+			})
+		}
+	}
+	r.Stats["trim_cutset_calls"] = n
+	ob := r.Ob(rule, "no path or file name is cut with a multi-character cutset", first)
+	if len(bad) == 0 {
+		ob.OKnt(fmt.Sprintf("%d Trim/TrimLeft/TrimRight call(s) in %v; none uses a set of two or more different characters that includes a file-name character", n, pkgs))
+	} else {
+		ob.Bad(strings.Join(bad, "; ") + ": the second argument is a set of characters, so every leading (trailing) character of the set is removed, including the first characters of names such as `.cfg` or `..data`; the selected files are no longer those the pattern describes")
+	}
+}
+
+// ruleAffixOverlap implements C20.R3: a name is accepted on `HasPrefix(name, p) && HasSuffix(name, s)` only together with a length
+// test, because without it the two may overlap inside a short name (`ab*ba` accepts `aba`).
+func ruleAffixOverlap(c *Ctx, rule string, pkgs []string) {
+	r := c.R
+	npairs := 0
+	var bad []string
+	first := ""
+	for _, pkg := range pkgs {
+		for _, fn := range c.SrcFuncs(pkg) {
+			type use struct {
+				call  *ssa.Call
+				t, a  string
+				isPre bool
+			}
+			var uses []use
+			instrsOf(fn, func(in ssa.Instruction) {
+				call, ok := in.(*ssa.Call)
+				if !ok {
+					return
+				}
+				sc := call.Call.StaticCallee()
+				if sc == nil || sc.Pkg == nil || sc.Pkg.Pkg.Path() != "strings" || len(call.Call.Args) != 2 {
+					return
+				}
+				if sc.Name() != "HasPrefix" && sc.Name() != "HasSuffix" {
+					return
+				}
+				if _, isConst := call.Call.Args[1].(*ssa.Const); isConst {
+					return
+				}
+				uses = append(uses, use{call, exprStr(call.Call.Args[0]), exprStr(call.Call.Args[1]), sc.Name() == "HasPrefix"})
+			})
+			for _, p := range uses {
+				if !p.isPre {
+					continue
+				}
+				for _, s := range uses {
+					if s.isPre || s.t != p.t {
+						continue
+					}
+					// a conjunction: the suffix test is evaluated only when the prefix test held, or the other way round
+					conj := false
+					for _, pair := range [][2]*ssa.Call{{p.call, s.call}, {s.call, p.call}} {
+						for _, ref := range *pair[0].Referrers() {
+							if iff, ok := ref.(*ssa.If); ok {
+								t := iff.Block().Succs[0]
+								if len(t.Preds) == 1 && (t == pair[1].Block() || t.Dominates(pair[1].Block())) {
+									conj = true
+								}
+							}
+						}
+					}
+					if !conj {
+						continue
+					}
+					npairs++
+					// a length test mentioning the name and an affix
+					guarded := false
+					instrsOf(fn, func(in ssa.Instruction) {
+						b, ok := in.(*ssa.BinOp)
+						if !ok {
+							return
+						}
+						switch b.Op {
+						case token.LSS, token.LEQ, token.GTR, token.GEQ:
+							str := exprStr(b)
+							if strings.Contains(str, "len("+p.t+")") && (strings.Contains(str, "len("+p.a+")") || strings.Contains(str, "len("+s.a+")")) {
+								guarded = true
+							}
+						}
+					})
+					if !guarded {
+						bad = append(bad, fmt.Sprintf("%s: HasPrefix(%s, %s) && HasSuffix(%s, %s) [%s]", fnName(fn), p.t, p.a, s.t, s.a, c.pos(p.call.Pos())))
+						if first == "" {
+							first = c.pos(p.call.Pos())
+						}
+					}
+				}
+			}
+		}
+	}
+	r.Stats["prefix_and_suffix_conjunctions"] = npairs
+	ob := r.Ob(rule, "a prefix test and a suffix test on one name come with a length test", first)
+	if len(bad) == 0 {
+		ob.OKnt(fmt.Sprintf("%d conjunction(s) of HasPrefix and HasSuffix on the same string in %v, all with a comparison of the lengths", npairs, pkgs))
+	} else {
+		ob.Bad(strings.Join(bad, "; ") + ": without comparing len(name) with the lengths of the affixes the prefix and the suffix may overlap, so a name shorter than prefix+suffix is selected (`ab*ba` selects `aba`)")
+	}
 }
